@@ -134,8 +134,23 @@ def generate(tier, seed, casedir, variant):
             samples.append(dict(jsonable(c), observed=obs))
     viol += smooth_family_oracle(rng, 10 if tier == "quick" else 80)
     write_cases(casedir, "C01", "R_C01", variant, cases, chunk=150)
+    # the forward-mode (separable-network) Laplacian and divergence are operators of the library too: same operator
+    # model, on the expression of a random separable network, 1 / 2 / 3 points per axis (cases and runner of C11)
+    import c11
+    fcases = []
+    for k in range(12 if tier == "quick" else 90):
+        try:
+            term, m = c11.op_case(rng, k)
+        except Exception as ex:
+            viol.append({"detail": f"forward operator raised {type(ex).__name__}: {str(ex)[:200]}", "case": {"what": "forward operator"}})
+            continue
+        fcases.append(term); meta[f"s{k}"] = m
+        dist["fwd_" + m["op"]] = dist.get("fwd_" + m["op"], 0) + 1
+        nontrivial.add(("fwd", k))
+    write_cases(casedir, "C01fwdsys", "R_C11", variant, fcases, chunk=60)
+    cases = cases + fcases
     return dict(meta=meta, oracle_violations=viol, evaluations=len(cases), distinct_nontrivial=len(nontrivial), samples=samples, distribution=dist,
-                rule="monomial basis of total degree <= 3 in d = 1..4 spatial variables with and without time (all of it in the thorough tier) for the Laplacian and the divergence, plus random integer polynomials of degree <= 4 for the four operators (scalar and vector outputs, extra unrelated parameters present), at dyadic points; non-trivial = the operator value is non-zero; plus a trig+quadratic+Gaussian family with closed-form Laplacian (oracle only)",
+                rule="monomial basis of total degree <= 3 in d = 1..4 spatial variables with and without time (all of it in the thorough tier) for the Laplacian and the divergence, plus random integer polynomials of degree <= 4 for the four operators (scalar and vector outputs, extra unrelated parameters present), at dyadic points; non-trivial = the operator value is non-zero; plus a trig+quadratic+Gaussian family with closed-form Laplacian (oracle only); plus the forward-mode Laplacian / divergence on random separable networks (1..3 space dimensions, with and without time, 1 / 2 / 3 points per axis)",
                 oracle_checks=len(cases) + (10 if tier == "quick" else 80), exhaustive=False)
 
 
